@@ -17,13 +17,14 @@ MC_Msgs == [good  |-> [key |-> "k1", src |-> "sA", dest |-> "ex",   ph |-> "p1"]
             srcB  |-> [key |-> "k1", src |-> "sB", dest |-> "ex",   ph |-> "p1"],
             id2   |-> [key |-> "k2", src |-> "sA", dest |-> "ex",   ph |-> "p1"],
             id2m  |-> [key |-> "k2", src |-> "sA", dest |-> "mini", ph |-> "p1"],
+            id2e  |-> [key |-> "k2", src |-> "sA", dest |-> "ex",   ph |-> "p0"],     \* an EMPTY payload
             chd   |-> [key |-> "k3", src |-> "sA", dest |-> "mini", ph |-> "p2"]]
 GoodProof == [set |-> "s1", sigs |-> <<"Valid", "Valid">>]
 
 Acts(s) ==
     {[name |-> "ApproveMessages", msgs |-> <<m>>, proof |-> GoodProof, auth |-> {}] : m \in MsgNames}
     \cup {[name |-> "AppExecute", app |-> ap, key |-> k, src |-> sa, payload |-> p] :
-            ap \in {"ex", "mini"}, k \in KeyNames, sa \in {"sA", "sB"}, p \in {"p1", "p2"}}
+            ap \in {"ex", "mini"}, k \in KeyNames, sa \in {"sA", "sB"}, p \in {"p1", "p2", "p0"}}
 
 InitState == [Install(Blank("owner0", "op0", 0), "s1") EXCEPT !.deployed = TRUE]
 Init == st = InitState
@@ -49,6 +50,7 @@ C16_ExecOnce == ExecOnce(st)
 
 Inst == [module |-> "Gateway", Sets |-> Sets, Keys |-> Keys, Msgs |-> Msgs, Cap |-> Cap,
          Retention |-> Retention, MinDelay |-> MinDelay, Probes |-> <<>>, Apps |-> <<"ex", "mini">>,
+         Payloads |-> [p0 |-> [len |-> 0, pat |-> "asc"]],
          scale |-> [Q |-> "1", Qt |-> "1", t0 |-> 1000000]]
 ASSUME PrintT(<<"INST", ToJson(Inst)>>)
 Dump ==
